@@ -65,6 +65,7 @@ class Scheduler:
         # says so (the other threads are arbitrarily slow); at most this many
         # timeouts fire per execution, afterwards such calls simply block
         self.timeouts_left = 3
+        self.thread_errors = []     # exceptions that escaped a virtual thread
 
     # ---- registration -------------------------------------------------
     def register_current(self, name):
@@ -279,6 +280,7 @@ def make_shims(sched, tracer):
                     pass
                 except BaseException as e:      # an exception escaping a thread
                     sched.events.append({'th': vt.name, 'op': 'thread_exc', 'a': -1, 'b': -1})
+                    sched.thread_errors.append(f'{vt.name}: {type(e).__name__}: {e}'[:200])
                 finally:
                     sys.settrace(None)
                     sched.thread_exit()
@@ -530,17 +532,20 @@ class Controlled:
         def local_trace(frame, event, arg):
             if event == 'line' and frame.f_lineno in lines:
                 kind, cell, where = lines[frame.f_lineno]
-                # the initialisations `shutdown = False`, `exc_info = None` run
-                # before the worker exists: not shared yet
-                if where == 'consumer' and kind == 'wr' and 'thread' not in frame.f_locals:
-                    return local_trace
                 if getattr(sched.tls, 'vt', None) is None or sched.aborted:
+                    return local_trace
+                # the initialisations `shutdown = False`, `exc_info = None` run
+                # before the worker exists: not shared yet (no scheduling point).
+                # NB (CPython <= 3.12): frame.f_locals is a snapshot that is
+                # WRITTEN BACK into the cells when this function returns - it is
+                # only ever touched when no other thread can have run since.
+                if where == 'consumer' and kind == 'wr' and len(sched.vts) < 2:
                     return local_trace
                 sched.point(kind + '_' + cell)
                 val = -1
                 if kind == 'rd':
                     try:
-                        cellv = frame.f_locals.get(cell)
+                        cellv = frame.f_locals.get(cell)     # refreshed: after the point
                         val = 1 if cellv else 0
                     except Exception:
                         val = -1
